@@ -13,7 +13,7 @@ from scales.message import MethodReturnMessage
 ID = 'C05'
 LEVEL = 'exploration'
 RULE = ('Hypothesis-generated join / leave histories (duplicate joins, leaves of unknown members, re-joins) over a pool '
-        'of 9 endpoints, interleaved with dispatch / complete / down / up / advance / leave-and-re-join of a member the aperture is just connecting to, against heap and aperture balancers '
+        'of 9 endpoints, interleaved with dispatch / complete / down / up / advance (ms, or 1-3 s so that a jitter round of the aperture - half of the aperture configurations have one every 1-2 s - comes and goes) / leave-and-re-join of a member the aperture is just connecting to / the deadline of a call parked in the still unopened balancer passing, against heap and aperture balancers (endpoints of the class of the library or namedtuples; member Close() leaves in-flight requests alone or fails them on the spot) '
         'whose provider returns the initial list after a drawn delay (0-20 ms), in some plans only after one or two failed loads (an IOError, or gevent.Timeout as kazoo raises it; the balancer retries every 5 s) while notifications are being delivered by '
         'a single serial notifier. At every quiescent step after loading: balancer\'s known servers == model server set; '
         'heap endpoints == server set (heap) or active + idle partition == server set (aperture). At the end, for the '
